@@ -153,6 +153,7 @@ def run_impl(model, scn, path, auto, faults, rnd, ops, driver_cls=None, reply_fi
             class Drv(cd.CIPDriver):
                 _auto_slot_cip_path = auto
         d = Drv(path)
+        last_exc = []
 
         def do(op):
             k = op[0]
@@ -196,9 +197,14 @@ def run_impl(model, scn, path, auto, faults, rnd, ops, driver_cls=None, reply_fi
                     try:
                         with d:
                             for o in op[1]:
+                                last_exc[:] = []
                                 s = do(o)
                                 outs.append(s)
                                 if s.startswith("(raise"):
+                                    # the block ends with the exception the call itself raised, so that `__exit__`
+                                    # is handed what a user's block would hand it
+                                    if last_exc and isinstance(last_exc[0], Exception):
+                                        raise last_exc[0]
                                     raise StopBody()
                             if op[2]:
                                 raise UserError()
@@ -206,12 +212,15 @@ def run_impl(model, scn, path, auto, faults, rnd, ops, driver_cls=None, reply_fi
                         return "(with " + " ".join(outs) + ")"
                     except UserError:
                         return "(with " + " ".join(outs) + " (raise foreign:UserError))"
-                    except BaseException as e:  # noqa  (open() in __enter__ failed)
+                    except BaseException as e:  # noqa  (open() in __enter__ failed, or the body's own exception)
+                        if last_exc and e is last_exc[0]:
+                            return "(with " + " ".join(outs) + ")"
                         return "(with " + " ".join(outs + [exn_str(e)]) + ")"
                     return "(with " + " ".join(outs) + ")"
             except BaseException as e:  # noqa
                 if isinstance(e, (KeyboardInterrupt, SystemExit)):
                     raise
+                last_exc[:] = [e]
                 return exn_str(e)
             raise ValueError(op)
         snaps = []
